@@ -89,10 +89,6 @@ func (ev *evaluator) evalCase(c kase) []verdict {
 		run.Count("requests_distinct_observed", int64(len(o.Contacts)))
 		run.Count("generator_selfchecks_by_git_config_z", int64(len(o.Files)))
 	}
-	if a.TimedOut || b.TimedOut {
-		run.Inconclusive(fmt.Sprintf("case %d: watchdog fired", c.Idx))
-		return nil
-	}
 	run.Count("env_outputs_compared", 1)
 	run.Count("command_outputs_compared", int64(len(a.Cmds)))
 	nSent, nOver := 0, 0
@@ -160,6 +156,10 @@ func (ev *evaluator) evalCase(c kase) []verdict {
 	}
 	if len(out) > 0 {
 		return out
+	}
+	if a.TimedOut || b.TimedOut { // sentinel evidence above stands on its own; a comparison of truncated runs does not
+		run.Inconclusive(fmt.Sprintf("case %d: watchdog fired", c.Idx))
+		return nil
 	}
 	// (1)+(3) differential
 	d := diffObs(a, b)
